@@ -1,5 +1,6 @@
 from __future__ import annotations
 from abc import abstractmethod
+import re
 import typing
 from typing import Tuple
 
@@ -608,8 +609,23 @@ class VhdlScope:
         if parent is not None:
             parent._subscopes.append(self)
 
+    @staticmethod
+    def sanitize_name(name: str) -> str:
+        # turn the name into a VHDL basic identifier
+        # (letter {[underline] letter_or_digit}): characters that are
+        # not allowed, leading/trailing and repeated underscores are
+        # collapsed into single underscores
+        name = re.sub("[^A-Za-z0-9]+", "_", name).strip("_")
+
+        if len(name) == 0:
+            return "unnamed"
+        if not name[0].isalpha():
+            return "n" + name
+        return name
+
     def reserve_name(self, name):
-        self._used_names.add(name)
+        # used names are compared case-insensitively
+        self._used_names.add(name.lower())
 
     def declare(self, obj, _is_first=True, name_hint=None, *, _obj_only=False):
         type_declared = _obj_only
@@ -627,6 +643,11 @@ class VhdlScope:
             if isinstance(obj, (type, Instance)):
                 if _obj_only:
                     return
+
+                if isinstance(obj, type) and issubclass(
+                    obj, (cohdl_enum.Enum, cohdl_enum.DynamicEnum)
+                ):
+                    self._reserve_enumerators(obj)
 
                 if (
                     isinstance(obj, type)
@@ -673,6 +694,29 @@ class VhdlScope:
 
             if self._parent is not None:
                 self._parent.declare(obj, False, name_hint, _obj_only=type_declared)
+
+    def _reserve_enumerators(self, enum_type):
+        # Enumeration literals are printed verbatim and are declared
+        # together with their type. Reserve their names in the outermost scope
+        # so no other declaration of the design unit can use (or hide) them.
+        if issubclass(enum_type, cohdl_enum.Enum):
+            enumerators = list(enum_type.__members__.keys())
+        else:
+            enumerators = [member.name for member in enum_type.__members__]
+
+        root = self
+
+        while root._parent is not None:
+            root = root._parent
+
+        for enumerator in enumerators:
+            assert re.fullmatch(
+                "[A-Za-z](_?[A-Za-z0-9])*", enumerator
+            ) and enumerator.lower() not in (
+                ModuleScope._vhdl_reserved | ModuleScope._additional_reserved
+            ), f"enumerator '{enumerator}' of '{enum_type.__name__}' cannot be used as a VHDL identifier"
+
+            root._used_names.add(enumerator.lower())
 
     def remove_declaration(self, obj):
         if obj in self._declarations:
@@ -754,9 +798,7 @@ class VhdlScope:
             else:
                 raise AssertionError("Internal error, cannot name object")
 
-            # remove leading and trailing underscores
-            # since they are not allowed in vhdl
-            name = name.strip("_")
+            name = VhdlScope.sanitize_name(name)
 
             # avoid name collisions by appending counter to names
             if name.lower() in used_names:
@@ -1452,14 +1494,48 @@ class ModuleScope(VhdlScope):
         "xnor",
         "xor",
         "default",
+        # reserved words added by VHDL-2000/2008
+        "assume",
+        "assume_guarantee",
+        "context",
+        "cover",
+        "fairness",
+        "force",
+        "parameter",
+        "property",
+        "protected",
+        "release",
+        "restrict",
+        "restrict_guarantee",
+        "sequence",
+        "strong",
+        "vmode",
+        "vprop",
+        "vunit",
     }
 
+    # predefined names the generated code relies on,
+    # a declaration with one of these names would hide them
     _additional_reserved = {
         "std_logic",
         "std_logic_vector",
         "signed",
         "unsigned",
+        "boolean",
+        "integer",
+        "string",
+        "true",
+        "false",
         "resize",
+        "to_unsigned",
+        "to_signed",
+        "to_integer",
+        "shift_left",
+        "shift_right",
+        "rising_edge",
+        "falling_edge",
+        "cohdl_bool_to_std_logic",
+        "work",
     }
 
     def __init__(self, *, additional_reserved_names: set[str] = None):
@@ -1469,7 +1545,9 @@ class ModuleScope(VhdlScope):
             additional_reserved_names = set()
 
         self._used_names = (
-            self._vhdl_reserved | self._additional_reserved | additional_reserved_names
+            self._vhdl_reserved
+            | self._additional_reserved
+            | {name.lower() for name in additional_reserved_names}
         )
 
 
@@ -1550,12 +1628,34 @@ class Entity(Instance):
 
         self._arch: Architecture | None = None
 
+        # scope that declares the entity itself, its ports and its architecture
+        # (set by the assembler, used to print the declared names)
+        self._decl_scope: VhdlScope | None = None
+
     def architecture(self):
         assert self._arch is not None
         return self._arch
 
     def name(self):
         return self._name
+
+    def declared_name(self) -> str:
+        """name of the entity in the generated code (unique, valid identifier)"""
+        if self._extern or self._decl_scope is None:
+            return self._name
+        return self._decl_scope.lookup_name(self)
+
+    def declared_arch_name(self) -> str | None:
+        if self._extern or self._arch is None:
+            return self._arch_name
+        return self._arch.arch_name()
+
+    def declared_port_name(self, port_name: str) -> str:
+        """name of a port in the generated code, the same
+        name is used to refer to the port in the architecture"""
+        if self._extern or self._decl_scope is None:
+            return port_name
+        return self._decl_scope.lookup_name(self._ports[port_name])
 
     def path(self):
         return self._path
@@ -1593,7 +1693,9 @@ class Entity(Instance):
             else:
                 raise AssertionError("invalid direction")
 
-            ret.append(f"{name} : {dir_str} {self._scope.format_type(obj)};")
+            ret.append(
+                f"{self.declared_port_name(name)} : {dir_str} {self._scope.format_type(obj)};"
+            )
 
         if len(ret) != 0:
             # remove terminating semicolon
@@ -1631,9 +1733,9 @@ class Entity(Instance):
     def _entity_declaration(self) -> TextBlock:
         return TextBlock(
             [
-                f"entity {self._name} is",
+                f"entity {self.declared_name()} is",
                 IndentBlock(self._port_map()),
-                f"end {self._name};",
+                f"end {self.declared_name()};",
             ]
         )
 
@@ -1668,7 +1770,7 @@ class Architecture(Instance):
         return self._scope.lookup_name(self)
 
     def entity_name(self):
-        return self._scope.lookup_name(self._entity)
+        return self._entity.declared_name()
 
     def write_declarations(self):
         return self._scope.format_declarations()
@@ -1907,7 +2009,7 @@ class EntityInst(Instance):
 
         for port_name, port in self._entity.ports().items():
             actual = self._ports[port_name]
-            formal_str = port_name
+            formal_str = self._entity.declared_port_name(port_name)
             actual_str = self._scope.format_target(actual)
 
             formal_kind = self._vector_kind(type(TypeQualifier.decay(port)))
@@ -1926,7 +2028,7 @@ class EntityInst(Instance):
                 # declared with a different vector type: convert in the association
                 # (inputs: the actual, outputs: the formal)
                 if not port.is_input():
-                    formal_str = f"{actual_kind}({port_name})"
+                    formal_str = f"{actual_kind}({formal_str})"
                 if not port.is_output():
                     actual_str = f"{formal_kind}({actual_str})"
 
@@ -1951,8 +2053,8 @@ class EntityInst(Instance):
                 (port_name, self._scope.format_value(self._ports[port_name]))
             )
 
-        entity_name = self._entity._name
-        arch_name = self._entity._arch_name
+        entity_name = self._entity.declared_name()
+        arch_name = self._entity.declared_arch_name()
         arch_spec = "" if arch_name is None else f"({arch_name})"
         path = self._entity._path
 
@@ -2005,7 +2107,7 @@ class Library(Instance):
         file_list = []
 
         for entity in self._entities:
-            file_path = os.path.join(path, f"{entity.name()}.vhd")
+            file_path = os.path.join(path, f"{entity.declared_name()}.vhd")
             file_list.append(file_path)
 
             with open(file_path, "w") as file:
